@@ -37,6 +37,10 @@ def cases(tier, rng):
     for mode in ("client-closes", "server-closes"):
         line = "c14d %d %s" % (n, mode)
         cs.append({"line": line, "key": line, "model": False, "tags": {"carrier": "dns-ends", "n": n, "mode": mode}})
+    # the physical session is lost while the server is away: local connections arriving meanwhile must each end (fail) in bounded time -
+    # a connection that neither connects nor fails holds its goroutine and its socket for ever - and service resumes afterwards
+    line = "c16 0 none 1 oksecure conn wait -1000 conn conn conn conn wait -1001 conn"
+    cs.append({"line": line, "key": line, "model": False, "tags": {"carrier": "tcp", "n": 1, "mode": "server-away"}})
     cs.append({"line": "c14 tcp 1 read-timeout", "key": "c14 read-timeout", "model": False, "tags": {"carrier": "memory", "n": 1, "mode": "read-timeout"}})
     if thorough:
         cs.append({"line": "c14 tcp 500 app-closes", "key": "c14 tcp 500", "tags": {"carrier": "tcp", "n": 500, "mode": "app-closes"}})
@@ -57,6 +61,16 @@ def project(impl, n):
 
 def oracle(case, impl):
     t = case["tags"]
+    if t["mode"] == "server-away":
+        p = impl.split()
+        if not p or p[0] in ("panic", "died", "timeout", "harness-error"):
+            return [("crash;carrier=tcp", "scenario failed to run: " + impl[:150])]
+        body = p[:p.index("phys")] if "phys" in p else p
+        if "hang" in body:
+            return [("connection-never-ends;mode=server-away", "after the session was lost with the server away, %d local connection(s) neither connected nor failed: each holds a goroutine and a socket for ever (%s)" % (body.count("hang"), impl[:120]))]
+        if "up" not in body[-2:]:
+            return [("no-service-after-return;mode=server-away", "the server came back but the next local connection was not served: " + impl[:120])]
+        return []
     pr = project(impl, t["n"])
     if pr is None:
         return [("crash;carrier=" + t["carrier"], "scenario failed to run: " + impl[:150])]
